@@ -130,6 +130,11 @@ struct Writer {
 
     /// The number of bytes that have been written to the currently active file.
     written_bytes: u64,
+
+    /// The lowest file ID that is certainly not taken by any existing file. A merge that stops
+    /// halfway leaves files whose IDs are greater than the active file ID. Entries must not be
+    /// appended below such files, therefore the active file is moved to this ID before writing.
+    min_unused_fileid: u64,
 }
 
 /// The reader reads log entries from data files given the locations found in KeyDir. Since data files
@@ -184,6 +189,7 @@ impl Bitcask {
             ))?)?,
             active_fileid,
             written_bytes: 0,
+            min_unused_fileid: active_fileid + 1,
         }));
 
         let handle = Handle {
@@ -441,6 +447,10 @@ impl Writer {
         key: Bytes,
         value: Option<Bytes>,
     ) -> Result<KeyDirEntry, Error> {
+        // Move above the files left behind by a merge that could not finish
+        if self.min_unused_fileid > self.active_fileid + 1 {
+            self.new_active_datafile(self.min_unused_fileid)?;
+        }
         // Append log entry
         let datafile_entry = DataFileEntry { tstamp, key, value };
         let index = self.writer.append(&datafile_entry)?;
@@ -494,8 +504,9 @@ impl Writer {
     #[tracing::instrument(level = "debug", skip(self))]
     fn merge(&mut self) -> Result<(), Error> {
         let path = self.ctx.conf.path.as_path();
-        let min_merge_fileid = self.active_fileid + 1;
+        let min_merge_fileid = self.min_unused_fileid;
         let mut merge_fileid = min_merge_fileid;
+        self.min_unused_fileid = merge_fileid + 1;
         debug!(merge_fileid, "new merge file");
 
         // Get the set of file ids to be merged
@@ -558,6 +569,7 @@ impl Writer {
                     merge_datafile_writer.get_ref().sync_all()?;
                     merge_hintfile_writer.sync()?;
                     merge_fileid += 1;
+                    self.min_unused_fileid = merge_fileid + 1;
                     merge_pos = 0;
                     merge_datafile_writer =
                         BufWriter::new(log::create(utils::datafile_name(path, merge_fileid))?);
@@ -603,6 +615,7 @@ impl Writer {
             fileid,
         ))?)?;
         self.active_fileid = fileid;
+        self.min_unused_fileid = self.min_unused_fileid.max(fileid + 1);
         self.written_bytes = 0;
         Ok(())
     }
